@@ -172,15 +172,26 @@ func matrixCmd(args []string) error {
 				sink.put(dy{"kind": "rt", "space": sp.name, "dir": "xyz", "v": v, "o": obs3(y.X, y.Y, y.Z)})
 			}
 			l := lat(nlat)
+			n := 0
 			for _, a := range l {
 				for _, b := range l {
 					for _, c := range l {
 						emit(a, b, c)
+						if n++; n%3 == 0 {
+							// straight afterwards, a colour less than one 16-bit code away: a conversion
+							// is a function of its argument, not of the call before it
+							emit(a+1.0/(1<<17), b-1.0/(1<<18), c)
+						}
 					}
 				}
 			}
 			for i := 0; i < nseed; i++ {
-				emit(seeded(), seeded(), seeded())
+				a, b, c := seeded(), seeded(), seeded()
+				emit(a, b, c)
+				if i%8 == 0 { // far out of range, both ways: no clamping, proportional error
+					k := []float32{12, 100, 10000, 1.0 / 1024, 3000000}[i/8%5]
+					emit(k*a, k*b, k*c)
+				}
 			}
 		}
 		done()
